@@ -192,6 +192,10 @@ func layersOf(s *Spec) []Layer {
 		return []Layer{stackL(s), mk(s, "*errutil.withPrefix", Prefix, fmtText(s))}
 	case "withmsg":
 		return []Layer{mk(s, "*errutil.withPrefix", Prefix, S(0))}
+	case "wrapferr":
+		sec := mk(s, "*secondary.withSecondaryError", Transparent, "")
+		sec.Hidden = s.X
+		return []Layer{stackL(s), sec, mk(s, "*errutil.withPrefix", Prefix, "lit "+S(0)+" e="+Text(s.X[0]))}
 	case "withmsgf":
 		return []Layer{mk(s, "*errutil.withPrefix", Prefix, fmtText(s))}
 	case "stack":
